@@ -629,9 +629,14 @@ impl VersionStorer for Cache {
         #[cfg(vlsp_verif)]
         crate::verif::point("mark.before_update")?;
 
+        // Upsert: the mark must not be lost when the package has no row yet
         conn.execute(
-            "UPDATE packages SET not_found = 1 WHERE registry_type = ?1 AND package_name = ?2",
-            (registry_type, package_name),
+            r#"
+            INSERT INTO packages (registry_type, package_name, updated_at, not_found)
+            VALUES (?1, ?2, ?3, 1)
+            ON CONFLICT(registry_type, package_name) DO UPDATE SET not_found = 1
+            "#,
+            (registry_type, package_name, Self::current_timestamp_ms()),
         )?;
 
         Ok(())
